@@ -134,6 +134,81 @@ def stepwise(r, w, mode):
             wr(v)
 
 
+def run_sm(mod, proto, role, seq, k):
+    """Drives the generated abstract base class with stub implementations. Returns per-action outcomes."""
+    base = getattr(mod, proto + ("WriterBase" if role == "w" else "ReaderBase"))
+    names = []
+    probe_state = 0
+    tmp = type("Probe", (base,), {n: (lambda self, *a: None) for n in base.__abstractmethods__})()
+    while True:
+        n = tmp._state_to_method_name(probe_state)
+        if n == "<unknown>":
+            break
+        names.append(n.split("_", 1)[1])
+        probe_state += 2
+    impls = {}
+    if role == "w":
+        for n in base.__abstractmethods__:
+            if n.startswith("_write_"):
+                impls[n] = (lambda self, value: [x for x in value] if hasattr(value, "__iter__") and not isinstance(value, (str, bytes)) else None)
+            else:
+                impls[n] = (lambda self, *a: None)
+    else:
+        for n in base.__abstractmethods__:
+            if n.startswith("_read_"):
+                idx = names.index(n[len("_read_"):])
+                cnt = k[idx] if idx < len(k) else None
+                if cnt is None:
+                    impls[n] = (lambda self: 7)
+                else:
+                    impls[n] = (lambda self, c=cnt: iter(range(c)))
+            else:
+                impls[n] = (lambda self, *a: None)
+    obj = type("Stub", (base,), impls)()
+    out = []
+    for tok in seq:
+        try:
+            op = tok[0]
+            if op == "c":
+                obj.close()
+                out.append("ok")
+                continue
+            body = tok[1:]
+            idx, _, arg = body.partition(":")
+            step = names[int(idx)]
+            if role == "w":
+                fn = getattr(obj, "write_" + step)
+                if op == "w":
+                    fn(1)
+                elif op == "l":
+                    fn([1] * int(arg))
+                elif op == "g":
+                    fn((x for x in range(int(arg))))
+                out.append("ok")
+            else:
+                fn = getattr(obj, "read_" + step)
+                v = fn()
+                if op == "r":
+                    if hasattr(v, "__next__"):
+                        n = sum(1 for _ in v)
+                        out.append("ok:%d" % n)
+                    else:
+                        out.append("ok")
+                elif op == "p":
+                    n = 0
+                    for _ in v:
+                        n += 1
+                        if n >= int(arg):
+                            break
+                    out.append("ok:%d" % n)
+                elif op == "n":
+                    out.append("ok")
+        except BaseException as e:
+            out.append("throw:" + type(e).__name__)
+            break
+    return out
+
+
 def main():
     outdir, pkg = sys.argv[1], sys.argv[2]
     sys.path.insert(0, outdir)
@@ -210,6 +285,8 @@ def main():
                 with open(cmd["out_path"], "w") as f:
                     json.dump({"names": names, "rows": out}, f)
                 res = {"ok": True}
+            elif cmd["op"] == "statemachine":
+                res = {"ok": True, "results": [run_sm(mod, cmd["proto"], cmd["role"], seq, cmd.get("k", [])) for seq in cmd["seqs"]]}
             elif cmd["op"] == "schema":
                 p = protos[cmd["proto"]]
                 res = {"ok": True, "schema": p[("Binary", "Writer")].schema}
